@@ -86,6 +86,27 @@ def check_layers(ctx, env0, label, idx):
     if not _close_tree(ctx, state.unwrapped, env0.initial(key=key), 1.0):
         ctx.phi_fail("unwrapped_state_is_base_initial", case0)
 
+    # declared spaces, layer by layer (the model's `SpacedStack.obsSpace / actSpace`): a layer that does not
+    # transform observations advertises exactly the observation space of the environment it wraps (NOT
+    # the base environment's), a layer that does not transform actions exactly its action space
+    for i in range(len(desc)):
+        wrapped, inner, d = layers[i + 1], layers[i], desc[i]
+        obs_layer = d["w"] in ("clipObs", "affineObs", "flattenObs", "scaleObs")
+        act_layer = d["w"] in ("clipAction", "affineAction", "scaleAction")
+        casesp = {"kind": "declared-spaces", "env": label, "stack": names, "layer": names[i]}
+        ctx.count("layer:declared-spaces")
+        try:
+            if not obs_layer and not (wrapped.observation_space == inner.observation_space):
+                ctx.phi_fail("observation_space_passes_through_non_observation_layers",
+                             {**casesp, "declared": repr(wrapped.observation_space)[:200],
+                              "inner": repr(inner.observation_space)[:200]}, key="layer-obs-space:" + names[i])
+            if not act_layer and not (wrapped.action_space == inner.action_space):
+                ctx.phi_fail("action_space_passes_through_non_action_layers",
+                             {**casesp, "declared": repr(wrapped.action_space)[:200],
+                              "inner": repr(inner.action_space)[:200]}, key="layer-act-space:" + names[i])
+        except Exception as e:  # noqa: BLE001 - a space that cannot be compared is reported, not fatal
+            ctx.note(f"declared-space comparison raised {type(e).__name__} for {names[i]}")
+
     step = eqx.filter_jit(lambda s, a, k: env.step(s, a, key=k))
     n = ctx.budget(6, 12)
     for t in range(n):
